@@ -29,11 +29,15 @@ def run_impl(op, inp):
     import admin.certificate_v2 as v2mod
     import datetime as _dt
     off = inp.get("clock_offset_s", 0)
+    fixed = inp.get("clock_abs_us")
 
     class _Clock(_dt.datetime):
         """the wall clock as the verification sees it (`now` is a parameter of the property)"""
         @classmethod
         def now(cls, tz=None):
+            if fixed is not None:
+                # a frozen instant, microseconds since the epoch (validity edges)
+                return cls.fromtimestamp(0, tz or _dt.timezone.utc) + _dt.timedelta(microseconds=fixed)
             return _dt.datetime.now(tz) + _dt.timedelta(seconds=off)
     real_dt = v2mod.datetime
     v2mod.datetime = _Clock
@@ -60,9 +64,11 @@ def _run(inp):
         return "error"
 
 
-def model_input(cert, root_cert, clock_offset_s=0):
+def model_input(cert, root_cert, clock_offset_s=0, clock_abs_us=None):
     import datetime as _dt
     now = _dt.datetime.now(_dt.timezone.utc) + _dt.timedelta(seconds=clock_offset_s)
+    if clock_abs_us is not None:
+        now = _dt.datetime.fromtimestamp(0, _dt.timezone.utc) + _dt.timedelta(microseconds=clock_abs_us)
     els = cert["elements"]
     bymap = {e["name"]: e for e in els}
     links, values = {}, {}
@@ -182,8 +188,20 @@ def gen(tier, rng):
         if off:
             kind += "+clock"
         inp = {"cert": cert, "root_pem": root.public_bytes(serialization.Encoding.PEM).decode(), "clock_offset_s": off}
+        abs_us = None
+        if i % 4 == 3:
+            # the clock frozen at an edge of one chain certificate's validity period, to the microsecond
+            import datetime as _dt
+            xc = rng.choice(m.certs[1:] or m.certs)
+            edge = rng.choice([xc.not_valid_before_utc, xc.not_valid_after_utc, xc.not_valid_after_utc])
+            epoch = _dt.datetime.fromtimestamp(0, _dt.timezone.utc)
+            abs_us = (edge - epoch) // _dt.timedelta(microseconds=1) + \
+                rng.choice([-1000000, -1, 0, 1, 2, 500000, 999999, 1000000, 1000001])
+            inp["clock_abs_us"] = abs_us
+            inp["clock_offset_s"] = 0
+            kind += "+edge"
         try:
-            inp.update(model_input(cert, root, off))
+            inp.update(model_input(cert, root, inp["clock_offset_s"], abs_us))
         except Exception:
             continue
         out.append(Case(OP, inp, stream=kind))
